@@ -207,10 +207,15 @@ def int_tokens(lo, hi, prefix="i"):
     return [f"{prefix}:{v}" for v in range(lo, hi + 1)]
 
 
-def gen_exhaustive(maxw):
-    """all operators x kind pairs x widths <= maxw x all values x both orders, ints in and slightly out of range"""
-    vts = vec_types(maxw)
+ARITH = ("add", "sub", "mul", "tdiv", "mod", "rem", "shl", "shr")
+
+
+def gen_exhaustive(maxw, maxw_other=None):
+    """all operators x kind pairs x widths <= maxw (arithmetic and shifts) / maxw_other (bitwise, concatenation,
+    comparisons, unary, indexing) x all values x both orders, ints in and slightly out of range"""
+    maxw_other = maxw_other or maxw
     for o in BINOPS:
+        vts = vec_types(maxw if o in ARITH else maxw_other)
         # vector x vector
         for (ka, wa) in vts:
             ta = operand_tokens(ka, wa)
@@ -247,6 +252,7 @@ def gen_exhaustive(maxw):
                 for b in int_tokens(-9, 9, "i"):
                     if tok_value(b) != 0:
                         yield f"bin {o} {a} {b}"
+    vts = vec_types(maxw_other)
     for o in UNOPS:
         for (ka, wa) in vts:
             for a in operand_tokens(ka, wa):
@@ -482,29 +488,43 @@ def size_key(line):
     return (sum((tok_width(t) or 0) for t in toks), sum(abs(tok_value(t) or 0) for t in toks), line)
 
 
+def _bundle_batch(jobs):
+    """jobs: [(src, kind, arg)] compiled and simulated one after the other in this freshly forked process"""
+    from .common import compile_task
+    out = []
+    for src, kind, arg in jobs:
+        c = compile_task((src, "E"))
+        if not c["ok"]:
+            out.append(("rejected", f"{c['errtype']}: {c['err'][-160:]}"))
+        else:
+            out.append(("ok", _sim_any((kind, c["vhdl"], arg))))
+    return out
+
+
 def _run_bundles(bundles, mk_src, mk_task):
-    """compile + simulate bundles; a bundle that is rejected or not executable is split into single items.
+    """compile + simulate bundles; a bundle that is rejected or not executable is bisected down to single items.
     Returns {item index: value | error string}."""
     out = {}
     todo = bundles
     while todo:
-        compiled = compile_many([(mk_src([it for _i, it in b]), "E") for b in todo])
-        tasks, idx = [], []
-        errors = {}
-        for bi, (b, c) in enumerate(zip(todo, compiled)):
-            if c["ok"]:
-                tasks.append(mk_task(c["vhdl"], [it for _i, it in b]))
-                idx.append(bi)
-            else:
-                errors[bi] = f"rejected: {c['errtype']}: {c['err'][-160:]}"
-        sims = fork_map(_sim_any, tasks, fresh=False, chunk=2)
-        for bi, r in zip(idx, sims):
+        jobs = []
+        for b in todo:
+            kind, _v, arg = mk_task(None, [it for _i, it in b])
+            jobs.append((mk_src([it for _i, it in b]), kind, arg))
+        tasks = [jobs[i:i + 2] for i in range(0, len(jobs), 2)]
+        res = []
+        for r in fork_map(_bundle_batch, tasks, fresh=True):
             if r[0] != "ok":
-                errors[bi] = f"not-executable: {r[1]}"
-            elif isinstance(r[1], str):
-                errors[bi] = f"not-executable: {r[1]}"
+                raise RuntimeError(f"design worker failed: {r[1]}")
+            res.extend(r[1])
+        errors = {}
+        for bi, (st, r) in enumerate(res):
+            if st == "rejected":
+                errors[bi] = "rejected: " + r
+            elif isinstance(r, str):
+                errors[bi] = f"not-executable: {r}"
             else:
-                for (i, _it), v in zip(todo[bi], r[1]):
+                for (i, _it), v in zip(todo[bi], r):
                     out[i] = v
         nxt = []
         for bi, msg in errors.items():
@@ -586,6 +606,270 @@ def confirm_case(line, spec_tok):
 
 
 # ---------------------------------------------------------------------------------------------------
+# tie (b), conversions: `<target> <<= <source>` where the target is an object of every declared kind, one of
+# its `.unsigned` / `.signed` / `.bitvector` views, a slice (optionally viewed) or an element, and the source is
+# a compile-time constant (folded into a literal by the back end) or a port holding the same value.
+# Third leg: the Python object model (`_assign` on the same view of a Python-side object).
+# case line:  conv <K><W> <view> <hi> <lo> <src-token>      (hi = lo = -1: whole object; view `elem`: element hi)
+# ---------------------------------------------------------------------------------------------------
+
+VIEWS = ["plain", "unsigned", "signed", "bitvector"]
+
+
+def conv_parse(line):
+    f = line.split(" ")
+    return f[1][0], int(f[1][1:]), f[2], int(f[3]), int(f[4]), f[5]
+
+
+def conv_form(line):
+    """target shape + source type; literal-only sources (int, Null, Full) of one target share the form `lit`"""
+    k, w, view, hi, lo, src = conv_parse(line)
+    return (k, w, view, hi, lo, src[:src.index(":")] if is_port_kind(src) else "lit")
+
+
+def conv_target(name, view, hi, lo):
+    if view == "elem":
+        return f"{name}[{hi}]"
+    t = name + (f"[{hi}:{lo}]" if hi >= 0 else "")
+    return t if view == "plain" else f"{t}.{view}"
+
+
+def conv_const_design(lines):
+    src = [HEADER]
+    for i, line in enumerate(lines):
+        src.append(f"k{i} = {const_src(conv_parse(line)[5])}")
+    src.append("class E(cohdl.Entity):")
+    for i, line in enumerate(lines):
+        k, w, *_ = conv_parse(line)
+        src.append(f"    o{i} = Port.output({type_src(f'{k}{w}:0')})")
+    src += ["    def architecture(self):", "        @std.concurrent", "        def logic():"]
+    for i, line in enumerate(lines):
+        k, w, view, hi, lo, _s = conv_parse(line)
+        src.append(f"            {conv_target(f'self.o{i}', view, hi, lo)} <<= k{i}")
+    return "\n".join(src) + "\n"
+
+
+def conv_port_design(forms):
+    """one input port p<f> and one output o<f> per form"""
+    src = [HEADER, "class E(cohdl.Entity):"]
+    body = []
+    for f, (k, w, view, hi, lo, sty) in enumerate(forms):
+        src.append(f"    p{f} = Port.input({type_src(sty + ':0')})")
+        src.append(f"    o{f} = Port.output({type_src(f'{k}{w}:0')})")
+        body.append(f"            {conv_target(f'self.o{f}', view, hi, lo)} <<= self.p{f}")
+    src += ["    def architecture(self):", "        @std.concurrent", "        def logic():"]
+    return "\n".join(src + body) + "\n"
+
+
+def _raw_bits(v):
+    return v.bits if hasattr(v, "bits") else str(getattr(v, "v", v))
+
+
+def _conv_sim(task):
+    """('const', vhdl, n) -> [bits]; ('port', vhdl, [[values of form f]]) -> [[bits]]"""
+    try:
+        d = Design(task[1])
+        if task[0] == "const":
+            d.initialise()
+            d.settle()
+            return [_raw_bits(d.get_raw(f"o{i}")) for i in range(task[2])]
+        vals = task[2]
+        out = [[] for _ in vals]
+        for t in range(max(len(v) for v in vals)):
+            for f, v in enumerate(vals):
+                d.set(f"p{f}", v[min(t, len(v) - 1)])
+            if t == 0:
+                d.initialise()
+            d.settle()
+            for f, v in enumerate(vals):
+                if t < len(v):
+                    out[f].append(_raw_bits(d.get_raw(f"o{f}")))
+        return out
+    except (VhdlTypeError, VhdlRuntimeError) as e:
+        return f"{type(e).__name__}: {e}"
+
+
+def _conv_model_chunk(lines):
+    """Python object model: `_assign` on the same view of a fresh (uninitialised) Python-side object"""
+    import_cohdl()
+    out = []
+    for line in lines:
+        k, w, view, hi, lo, src = conv_parse(line)
+        try:
+            obj = mk_type(k, w)()
+            tgt = obj
+            if view == "elem":
+                tgt = obj[hi]
+            else:
+                if hi >= 0:
+                    tgt = tgt[hi:lo]
+                if view != "plain":
+                    tgt = getattr(tgt, view)
+            tgt._assign(mk_obj(src))
+            out.append("".join(str(b) for b in obj)[::-1])
+        except BaseException:  # noqa
+            out.append("rejected")
+    return out
+
+
+def mk_type(k, w):
+    import cohdl
+    return {"u": cohdl.Unsigned, "s": cohdl.Signed, "v": cohdl.BitVector}[k][w]
+
+
+def gen_conv(widths, thorough):
+    """targets of every declared kind and width in `widths`; sources of every kind with width <= the width of the
+    assigned part, all values (MSB-set included); ints / Null / Full as literal-only sources"""
+    for k in "usv":
+        for w in widths:
+            parts = [("whole", -1, -1, w)]
+            if w >= 3:
+                parts += [("slice", w - 1, w - 2, 2), ("slice", w - 2, 0, w - 1)]
+                if thorough:
+                    parts += [("slice", 1, 1, 1), ("slice", w - 1, 1, w - 1)]
+            for _kind, hi, lo, pw in parts:
+                for view in VIEWS:
+                    for sk in "usv":
+                        for sw in [x for x in sorted(set(widths) | {1, 2}) if x <= pw]:
+                            if not thorough and pw - sw > 2 and sw > 1:
+                                continue
+                            for t in operand_tokens(sk, sw):
+                                yield f"conv {k}{w} {view} {hi} {lo} {t}"
+                    ints = sorted({0, 1, (1 << pw) - 1, 1 << (pw - 1), -(1 << (pw - 1)), -1, (1 << (pw - 1)) - 1})
+                    for t in [f"i:{v}" for v in ints] + ["n", "f", "b:1"]:
+                        yield f"conv {k}{w} {view} {hi} {lo} {t}"
+            for i in sorted({0, w - 1}):
+                for t in ["b:0", "b:1", "i:0", "i:1", "n", "f", "u1:1", "v1:1"]:
+                    yield f"conv {k}{w} elem {i} -1 {t}"
+
+
+def conv_size_key(line):
+    k, w, view, hi, lo, src = conv_parse(line)
+    return (w + (tok_width(src) or 0), abs(tok_value(src) or 0), line)
+
+
+def conv_sig(line):
+    k, w, view, hi, lo, src = conv_parse(line)
+    return f"{k}{'[:]' if hi >= 0 and view != 'elem' else ''}.{view}<-{src[0]}"
+
+
+def conv_replay(line):
+    r = {"case": line, "constant_design": conv_const_design([line])}
+    if is_port_kind(conv_parse(line)[5]):
+        r["port_design"] = conv_port_design([conv_form(line)])
+        r["port_value"] = tok_value(conv_parse(line)[5])
+    return r
+
+
+def _conv_batch(jobs):
+    """jobs: [('const', src, n) | ('port', src, [[values]])]; compiled and simulated one after the other in this
+    (freshly forked) process -> [list of bits | 'rejected:<errtype>' | 'not-executable:<msg>']"""
+    from .common import compile_task
+    out = []
+    for kind, src, arg in jobs:
+        c = compile_task((src, "E"))
+        if not c["ok"]:
+            out.append("rejected:" + c["errtype"])
+            continue
+        r = _conv_sim((kind, c["vhdl"], arg))
+        out.append(r if isinstance(r, list) else "not-executable:" + str(r)[:120])
+    return out
+
+
+def _conv_run(jobs, per_task=12):
+    tasks = [jobs[i:i + per_task] for i in range(0, len(jobs), per_task)]
+    out = []
+    for t, r in zip(tasks, fork_map(_conv_batch, tasks, fresh=True)):
+        if r[0] != "ok":
+            raise RuntimeError(f"conversion worker failed: {r[1]}")
+        out.extend(r[1])
+    return out
+
+
+def conv_eval(lines, quick=True):
+    """-> {line: (const bits | 'rejected..' | None (not probed), port bits | 'rejected..' | None, model bits | 'rejected')}"""
+    model = {}
+    chunks = list(chunked(lines, 1500))
+    for c, r in zip(chunks, fork_map(_conv_model_chunk, chunks, fresh=False, chunk=1)):
+        if r[0] != "ok":
+            raise RuntimeError(f"python worker failed: {r[1]}")
+        model.update(zip(c, r[1]))
+    forms = {}
+    for l in lines:
+        forms.setdefault(conv_form(l), []).append(l)
+    const, port = {}, {}
+    # round 1: per form one constant design with the values the object model accepts, one probe design with
+    # values it rejects (quick: first and last), and the port-fed design
+    good, bad, pjobs = [], [], []
+    for form, ls in forms.items():
+        acc = [l for l in ls if model[l] != "rejected"]
+        rej = [l for l in ls if model[l] == "rejected"]
+        if acc:
+            good.append(acc)
+        if rej:
+            bad.append(rej if not quick or len(rej) <= 2 else [rej[0], rej[-1]])
+        if form[5] != "lit":
+            pjobs.append((form, ls))
+    res = _conv_run([("const", conv_const_design(b), len(b)) for b in good]) + \
+        _conv_run([("const", conv_const_design(b), len(b)) for b in bad]) + \
+        _conv_run([("port", conv_port_design([f]), [[tok_value(conv_parse(l)[5]) for l in ls]]) for f, ls in pjobs])
+    singles = []
+    for b, r in zip(good + bad, res[:len(good) + len(bad)]):
+        if isinstance(r, list):
+            const.update(zip(b, r))
+        elif len(b) == 1 or model[b[0]] == "rejected":
+            for l in b:
+                const[l] = r
+        else:
+            singles.extend(b)   # an accepted-by-the-model bundle was rejected: every value on its own
+    for (f, ls), r in zip(pjobs, res[len(good) + len(bad):]):
+        if isinstance(r, list):
+            port.update(zip(ls, r[0]))
+        else:
+            for l in ls:
+                port[l] = r
+    for l, r in zip(singles, _conv_run([("const", conv_const_design([l]), 1) for l in singles], per_task=20)):
+        const[l] = r[0] if isinstance(r, list) else r
+    return {l: (const.get(l), port.get(l), model[l]) for l in lines}, len(forms)
+
+
+def run_conversions(ctx):
+    lines = list(gen_conv(ctx.scale([1, 2, 4], [1, 2, 3, 4, 6]), not ctx.quick))
+    res, n_forms = conv_eval(lines, ctx.quick)
+    bad = {}
+    n_cmp = n_rej = 0
+    for l in lines:
+        cv, pv, mv = res[l]
+        ctx.evaluations += 1
+        ctx.dist["conv:" + conv_sig(l)] += 1
+        vals = {"constant design": cv, "port-fed design": pv, "python object model": mv}
+        acc = {n: v for n, v in vals.items() if v is not None and not v.startswith(("rejected", "not-executable"))}
+        if any(v is not None and v.startswith("not-executable") for v in vals.values()):
+            kind = "conv-not-executable"
+        elif len(acc) >= 2 and len(set(acc.values())) > 1:
+            kind = "conv-fold-vs-runtime" if ("constant design" in acc and len(set(v for n, v in acc.items() if n != "constant design")) == 1) else "conv-disagreement"
+        else:
+            kind = None
+        if len(acc) >= 2:
+            n_cmp += 1
+            ctx.distinct.add(l)
+        else:
+            n_rej += 1
+        if kind:
+            c = (kind, conv_sig(l))
+            if c not in bad or conv_size_key(l) < conv_size_key(bad[c][0]):
+                bad[c] = (l, vals)
+    ctx.obligation(f"correspondence (b, conversions): folded constant = port-fed design = Python `_assign` on {n_cmp} accepted "
+                   f"assignments in {n_forms} target/source forms ({n_rej} rejected or literal-only-and-rejected)", not bad,
+                   detail=f"{len(bad)} disagreeing classes")
+    for (kind, c), (l, vals) in sorted(bad.items()):
+        k, w, view, hi, lo, src = conv_parse(l)
+        stmt = f"{conv_target({'u': 'Unsigned', 's': 'Signed', 'v': 'BitVector'}[k] + f'[{w}] object', view, hi, lo)} <<= {const_src(src)}"
+        ctx.report(f"{kind}:{c}", f"`{stmt}`: " + "; ".join(f"{n}: {v}" for n, v in vals.items() if v is not None),
+                   {**conv_replay(l), "observed": vals, "statement": stmt})
+
+
+# ---------------------------------------------------------------------------------------------------
 
 def chunked(it, n):
     buf = []
@@ -626,13 +910,13 @@ def run(ctx: Ctx):
     maxw_a = ctx.scale(4, 5)
     maxw_b = ctx.scale(2, 3)
     ctx.rule = ("(a) every operator/method x operand kind pair (Unsigned, Signed, BitVector, Bit, int, Integer, Null, Full; both "
-                f"orders) x widths <= {maxw_a} x all values (ints also slightly outside the representable range), plus random "
+                f"orders) x widths <= {maxw_a} (arithmetic, shifts; 3 for the other operators in the quick tier) x all values (ints also slightly outside the representable range), plus random "
                 "operands up to 128 bit: Python object of /repo vs Lean pyFold; (b) every case with a defined specification, "
                 f"widths <= {maxw_b}: constant design vs port-fed design vs spec.  non-trivial = the specification defines a result; "
                 "distinct = distinct (operator, operands)")
-    lines = list(gen_exhaustive(maxw_a))
+    lines = list(gen_exhaustive(maxw_a, ctx.scale(3, 5)))
     n_exh = len(lines)
-    wide = gen_random_wide(rng, ctx.scale(12000, 200000))
+    wide = gen_random_wide(rng, ctx.scale(6000, 200000))
     lines += wide
     triples = eval_all(lines)
 
@@ -685,6 +969,8 @@ def run(ctx: Ctx):
     ctx.obligation(f"correspondence (b): constant design = port-fed design = spec on {n_cmp} cases in {n_shapes} operation shapes",
                    not problems, detail=f"{len(problems)} disagreements in {len(classes_b)} classes")
 
+    run_conversions(ctx)
+
     reported = set()
     # 1. python fold differs from the documented / run-time value: confirm through the designs and report
     for c, (line, py, mo, sp) in sorted(mism_spec.items()):
@@ -731,6 +1017,15 @@ def run(ctx: Ctx):
 def replay(ctx, data):
     r = data["replay"]
     line = r["case"]
+    if line.startswith("conv "):
+        res, _n = conv_eval([line], False)
+        cv, pv, mv = res[line]
+        print("case                :", r.get("statement", line))
+        print("constant design     :", cv)
+        print("port-fed design     :", pv)
+        print("python object model :", mv)
+        acc = [v for v in (cv, pv, mv) if v is not None and not v.startswith(("rejected", "not-executable"))]
+        return 0 if len(set(acc)) <= 1 and not any(v and v.startswith("not-executable") for v in (cv, pv, mv)) else 1
     py = fork_map(_py_chunk, [[line]], fresh=False)[0]
     mo, sp = lean_io.query("C09", [line])[0].split(" ")
     print("case         :", line)
